@@ -105,7 +105,8 @@ def case_kernel(log, sector, order, method, scheme, kind="general", shape="compl
     what = "%s %s %s order %d" % (sector, scheme, method, order)
 
     def run():
-        jetmod.set_cap(n + 1)
+        # the decompose kernels take the square root of a series of valuation 2 at equal central couplings: two more orders
+        jetmod.set_cap(n + 3 if method.startswith("DECOMPOSE") else n + 1)
         a0c, a1c, al0, al1 = jet_couplings()
         L = SR.var("L")
         bet, bs, roots = sym_rge(order, shape)
